@@ -27,6 +27,9 @@ type Config struct {
 	initErr               error
 	filename              string
 	vm                    *vm.VirtualMachine
+	// ownModules are the modules that this configuration has copied in order
+	// to edit them (see ownModule)
+	ownModules map[*object.Module]bool
 }
 
 // NewConfig returns a new Risor Config. Use the Risor options functions
@@ -105,7 +108,14 @@ func (cfg *Config) applyDefaultGlobals() {
 }
 
 func (cfg *Config) applyDenylist() {
+	// In sorted order, like the overrides: what is copied and edited on the
+	// way does not depend on map iteration order
+	names := make([]string, 0, len(cfg.denylist))
 	for name := range cfg.denylist {
+		names = append(names, name)
+	}
+	sort.Strings(names)
+	for _, name := range names {
 		parts := strings.SplitN(name, ".", 2)
 		if len(parts) == 1 {
 			delete(cfg.globals, name)
@@ -114,12 +124,63 @@ func (cfg *Config) applyDenylist() {
 		// Resolve the module (which could be nested) and then remove the
 		// named attribute from it
 		moduleName, attr := parts[0], parts[1]
-		if obj, ok := cfg.globals[moduleName]; ok {
-			if m, ok := obj.(*object.Module); ok {
-				removeModuleAttr(m, attr)
-			}
+		attrPath := strings.Split(attr, ".")
+		if m, ok := cfg.ownModule(moduleName, attrPath[:len(attrPath)-1]); ok {
+			m.Override(attrPath[len(attrPath)-1], nil)
 		}
 	}
+}
+
+// ownModule returns the module under the given global name (and from there
+// along the path of attribute names) as one that this configuration may edit:
+// a copy, made the first time the configuration edits the module, that takes
+// the original's place in this configuration. The original may be shared with
+// other configurations (a host hands one module object to several, or the
+// globals of one configuration to another), and what is removed or replaced
+// for this one is not removed or replaced for them.
+func (cfg *Config) ownModule(name string, path []string) (*object.Module, bool) {
+	obj, ok := cfg.globals[name]
+	if !ok {
+		return nil, false
+	}
+	shared, ok := obj.(*object.Module)
+	if !ok {
+		return nil, false
+	}
+	m := cfg.owned(shared)
+	cfg.globals[name] = m
+	for _, attrName := range path {
+		attr, ok := m.GetAttr(attrName)
+		if !ok {
+			return nil, false
+		}
+		sharedChild, ok := attr.(*object.Module)
+		if !ok {
+			return nil, false
+		}
+		child := cfg.owned(sharedChild)
+		if child != sharedChild {
+			if err := m.Override(attrName, child); err != nil {
+				return nil, false
+			}
+		}
+		m = child
+	}
+	return m, true
+}
+
+// owned returns the module itself if this configuration has made it, and
+// otherwise a copy of it that the configuration makes and remembers.
+func (cfg *Config) owned(m *object.Module) *object.Module {
+	if cfg.ownModules == nil {
+		cfg.ownModules = map[*object.Module]bool{}
+	}
+	if cfg.ownModules[m] {
+		return m
+	}
+	m = m.Copy()
+	cfg.ownModules[m] = true
+	return m
 }
 
 func (cfg *Config) applyOverrides() error {
@@ -152,16 +213,12 @@ func (cfg *Config) applyOverrides() error {
 		moduleName := parts[0]
 		nestedModulePath := parts[1 : len(parts)-1]
 		attrName := parts[len(parts)-1]
-		if obj, ok := cfg.globals[moduleName]; ok {
-			if m, ok := obj.(*object.Module); ok {
-				if targetMod, ok := resolveModule(m, nestedModulePath); ok {
-					// An override that the module refuses (it has no such
-					// attribute) is reported like an invalid value: the
-					// script would otherwise get the original
-					if err := targetMod.Override(attrName, valueObj); err != nil && firstErr == nil {
-						firstErr = fmt.Errorf("init error: global override %q: %v", name, err)
-					}
-				}
+		if targetMod, ok := cfg.ownModule(moduleName, nestedModulePath); ok {
+			// An override that the module refuses (it has no such
+			// attribute) is reported like an invalid value: the
+			// script would otherwise get the original
+			if err := targetMod.Override(attrName, valueObj); err != nil && firstErr == nil {
+				firstErr = fmt.Errorf("init error: global override %q: %v", name, err)
 			}
 		}
 	}
@@ -220,36 +277,4 @@ func newLocalImporter(globalNames []string, sourceDir string) importer.Importer 
 		SourceDir:   sourceDir,
 		Extensions:  []string{".risor", ".rsr"},
 	})
-}
-
-func resolveModule(m *object.Module, attr []string) (*object.Module, bool) {
-	if len(attr) == 0 {
-		return m, true
-	}
-	// Descend one module per path element
-	result := m
-	for _, name := range attr {
-		if obj, ok := result.GetAttr(name); ok {
-			if modObj, ok := obj.(*object.Module); ok {
-				result = modObj
-				continue
-			}
-		}
-		return nil, false
-	}
-	return result, true
-}
-
-func removeModuleAttr(m *object.Module, attr string) {
-	parts := strings.Split(attr, ".")
-	partsLen := len(parts)
-	if partsLen == 1 {
-		m.Override(attr, nil)
-		return
-	}
-	name := parts[partsLen-1]
-	modPath := parts[:partsLen-1]
-	if mod, ok := resolveModule(m, modPath); ok {
-		mod.Override(name, nil)
-	}
 }
